@@ -41,6 +41,9 @@ def parse_url(url: str) -> tuple:
         raise ValueError("url is invalid")
 
     scheme, url = url.split(":", 1)
+    if not url.startswith("//"):
+        # no authority behind the scheme (also: another URL nested behind it)
+        raise ValueError("hostname is invalid")
 
     parsed = urlparse(url, scheme="http")
     if parsed.hostname:
